@@ -110,5 +110,6 @@ PROP_IFACE_ENS = [
 
 # ------------------------------------------------------------------ semantic layer
 V_DEF = "forall(p, 0, P, forall(k, 0, var_bounds[p, RG_END] - var_bounds[p, RG_START], tv(p)[k] == sigma[props_dom_indices[var_bounds[p, RG_START] + k]] + props_dom_offsets[var_bounds[p, RG_START] + k, 0]))"
+SOL_DEF = "sol() == forall(p, 0, P, rel_holds(p))"
 PROP_IFACE_SOL = ("P2.sol", "implies(ufun_bool('Rel', pidx, tvec) and inbox(tvec, old(domains), n), result != PROP_INCONSISTENCY and inbox(tvec, domains, n))")
 CA_PRESERVE = ("C02.preserve", f"implies(sol() and in_box({SS0}, {TOP}), result != PROBLEM_INCONSISTENT and in_box({SS}, {TOP}))")
